@@ -212,6 +212,9 @@ func c06Gen(r *rand.Rand, n int, tier string) []string {
 		var edges []edge
 		var ops []string
 		ids := []string{"a", "b", "c", "d", "e"}
+		if r.Intn(4) == 0 {
+			ids = []string{"a", "A", "b", "B", "c"} // ids that differ in letter case only are different nodes
+		}
 		for s := 0; s < 2+r.Intn(6); s++ {
 			switch k := r.Intn(8); {
 			case k < 4: // new node (sometimes detached: parent "none")
